@@ -157,6 +157,33 @@ func (g *Gen) label() string {
 		g.f("vars:subst-in-label")
 		return l + " ${" + g.vars[g.R.Intn(len(g.vars))] + "}"
 	}
+	if (len(g.vars) > 0 && g.chance(0.3)) || g.chance(0.02) {
+		// a substitution directly next to keyword-like text, unquoted and quoted (without a declared variable the
+		// program does not compile, but it still parses and formats)
+		g.f("vars:subst-adjacent")
+		vn := "undeclared"
+		if len(g.vars) > 0 {
+			vn = g.vars[g.R.Intn(len(g.vars))]
+		}
+		sub := "${" + vn + "}"
+		w := g.pick("null", "NULL", "Null", "true", "FALSE", "suspend", "label", "Label", "SHAPE", "steps", "x", "a#b", "1")
+		switch g.R.Intn(7) {
+		case 0:
+			return sub + w
+		case 1:
+			return w + sub
+		case 2:
+			return sub + w + sub
+		case 3:
+			return "\"" + sub + w + "\""
+		case 4:
+			return "\"" + w + sub + " " + w + "\""
+		case 5:
+			return sub + sub
+		default:
+			return w + sub + w
+		}
+	}
 	if l == "true" || l == "42" || l == "3.5" {
 		g.f("scalar:non-string")
 	}
@@ -436,6 +463,9 @@ func (g *Gen) shapeStmt(depth int) stmt {
 		return stmt{lines: []string{n + g.sep() + g.pick("null", "null", "NULL", "Null")}}
 	case 7:
 		g.f("string:block")
+		if g.chance(0.4) {
+			return g.blockWsStmt(n)
+		}
 		switch g.R.Intn(4) {
 		case 0:
 			return stmt{lines: []string{n + g.sep() + "|md # title |"}}
@@ -468,6 +498,66 @@ func (g *Gen) shapeStmt(depth int) stmt {
 		}
 		return stmt{lines: []string{n + g.sep() + g.label()}}
 	}
+}
+
+// blockWsStmt: a multi-line block string (code or markdown) whose lines carry whitespace in every role the printer
+// treats specially: really empty lines, lines of only spaces / tabs at, below and beyond the common indent,
+// trailing spaces / tabs after text, a first or last line that is blank.
+func (g *Gen) blockWsStmt(n string) stmt {
+	g.f("string:block-ws")
+	tag := g.pick("md", "go", "ts", "", "latex", "sh")
+	quote := g.pick("|", "|", "||", "|`")
+	u := g.indentUnit
+	wsOnly := func() string {
+		switch g.R.Intn(5) {
+		case 0:
+			g.f("blockws:line-beyond-indent")
+			return u + u + g.pick(" ", "  ", "    ", "\t")
+		case 1:
+			g.f("blockws:line-at-indent")
+			return u
+		case 2:
+			g.f("blockws:line-below-indent")
+			return " "
+		case 3:
+			g.f("blockws:tab-only-line")
+			return "\t"
+		default:
+			return ""
+		}
+	}
+	text := func() string {
+		t := g.pick("x := 1", "# Title", "- item", "func f() {", "}", "a | b", "let y = `q`", "\\alpha + \\beta", "echo $HOME")
+		pre := u + g.pick("", "", u, u+u, " ")
+		if g.chance(0.3) {
+			g.f("blockws:trailing-ws-after-text")
+			t += g.pick(" ", "   ", "\t", " \t ")
+		}
+		return pre + t
+	}
+	lines := []string{n + g.sep() + quote + tag}
+	if g.chance(0.2) {
+		g.f("blockws:blank-first-line")
+		lines = append(lines, wsOnly())
+	}
+	k := 2 + g.R.Intn(4)
+	for i := 0; i < k; i++ {
+		lines = append(lines, text())
+		if g.chance(0.5) {
+			lines = append(lines, wsOnly())
+		}
+	}
+	lines = append(lines, text())
+	if g.chance(0.2) {
+		g.f("blockws:blank-last-line")
+		lines = append(lines, wsOnly())
+	}
+	closeQ := quote
+	if quote == "|`" {
+		closeQ = "`|"
+	}
+	lines = append(lines, closeQ)
+	return stmt{lines: lines}
 }
 
 func (g *Gen) shapeBody(depth int) []stmt {
@@ -724,6 +814,38 @@ func (g *Gen) specialShapeStmt() stmt {
 	}
 }
 
+// flatBoardStmt: a key path that starts with a board keyword and reaches depth >= 2 in flat form
+func (g *Gen) flatBoardStmt() stmt {
+	g.f("board:flat-key")
+	kind := g.pick(boardKws...)
+	bn := g.pick("fb", "hot", "detail", "L", "s") + fmt.Sprint(g.R.Intn(3))
+	obj := g.quoteIfNeeded(g.pick(identPool[:12]...))
+	head := g.kw(kind) + "." + bn
+	switch g.R.Intn(7) {
+	case 0:
+		g.f("flatboard:attr-scalar")
+		return stmt{lines: []string{head + "." + obj + "." + g.kw("shape") + g.sep() + g.pick(shapes...)}}
+	case 1:
+		g.f("flatboard:label-scalar")
+		return stmt{lines: []string{head + "." + obj + g.sep() + g.pick("burning", "hello", "x1")}}
+	case 2:
+		g.f("flatboard:bare-object")
+		return stmt{lines: []string{head + "." + obj + "." + g.pick(identPool[:8]...)}}
+	case 3:
+		g.f("flatboard:style")
+		return stmt{lines: []string{head + "." + obj + "." + g.kwPath("style", "fill") + g.sep() + g.pick(colors...)}}
+	case 4:
+		g.f("flatboard:map")
+		return stmt{lines: g.block(head+g.sep(), []stmt{{lines: []string{obj}}, {lines: []string{obj + "2" + g.sep() + "in flat board"}}})}
+	case 5:
+		g.f("flatboard:deep-map")
+		return stmt{lines: g.block(head+"."+obj+g.sep(), []stmt{{lines: []string{g.kw("shape") + ": " + g.pick(shapes...)}}, {lines: []string{"inner"}}})}
+	default:
+		g.f("flatboard:empty-map")
+		return stmt{lines: []string{head + "." + obj + g.sep() + "{}"}}
+	}
+}
+
 // boardStmt: a layers / scenarios / steps block holding 1..3 boards
 func (g *Gen) boardStmt(depth int, prof map[string]float64) stmt {
 	kind := boardKws[g.R.Intn(3)]
@@ -802,6 +924,18 @@ func (g *Gen) boardBody(depth int, prof map[string]float64, top bool) []stmt {
 			}
 		default:
 			body = append(body, g.specialShapeStmt())
+		}
+	}
+	// flat (dotted) keys into boards: `layers.x.y.shape: circle`, `scenarios.hot.x: burning`, `steps.s.a: {…}`
+	if depth < 2 && g.chance(prof["boards"]*0.35) {
+		nf := 1 + g.R.Intn(2)
+		for j := 0; j < nf; j++ {
+			at := g.R.Intn(len(body) + 1)
+			nb := make([]stmt, 0, len(body)+1)
+			nb = append(nb, body[:at]...)
+			nb = append(nb, g.flatBoardStmt())
+			nb = append(nb, body[at:]...)
+			body = nb
 		}
 	}
 	// boards
